@@ -15,7 +15,7 @@ RULE = ('case = (a) every AnsiStr leaving the API (constructor or any AnsiStr me
         'distinct (operation, receiver, arguments).')
 ASSUMPTIONS = ['precedence-equivalence for per-character settings', 'a list and a tuple of pieces are both accepted']
 MIN_EVAL = 500
-CASES = {'quick': 80, 'thorough': 1800}
+CASES = {'quick': 640, 'thorough': 10800}
 WEIGHTS = {'apply': 8, 'new_ansi': 2, 'convert': 3}
 INPLACE_ONLY = {'apply_formatting', 'remove_formatting', 'apply_formatting_for_match', 'format_matching',
                 'unformat_matching', 'clear_formatting', 'simplify'}
